@@ -29,7 +29,7 @@ From Coq Require Import List Bool Arith PeanoNat QArith Qcanon.
 From PV Require Import Base.Reach Base.Graph Base.Semiring Base.Ravel Base.FinSum Base.RefFactor
   C08.Model C08.Spec C13.Model C13.Spec C13.ProofsDo C13.ProofsTrunc C13.ProofsAdj C13.ProofsAdjLift C13.Finite C13.ProofsRefuted
   C13.ProofsSum C13.ProofsAdjU C13.ProofsAdjEx C13.ProofsCrit C13.ProofsCritLift C13.ProofsBdGrid C13.ProofsBdGridLift
-  C13.ProofsBackdoorAll C13.ProofsBdLink C13.ProofsBdLinkEx.
+  C13.ProofsBackdoorAll C13.ProofsBdLink C13.ProofsBdLinkEx C13.ProofsFrontdoorAll.
 From Coq Require Import Permutation.
 Import ListNotations.
 Local Close Scope Q_scope.
@@ -376,3 +376,53 @@ Example C13_backdoor_adjustment_instance :
   is_valid_backdoor (bg ex_bn) 0 2 [1%nat] = true /\ is_valid_backdoor (bg ex_bn) 0 2 [] = false /\
   query ex_bn [2%nat] [(0, 0)]%nat (Some [1%nat]) = inr (trunc_table ex_bn [2%nat] [(0, 0)]%nat).
 Proof. exact backdoor_link_example. Qed.
+
+
+(* ================================================================== 7. the front-door adjustment formula, unbounded *)
+(* For EVERY well-formed DAG g (any number of nodes, any cardinalities), every family F of conditional distributions
+   along g (the CPDs of a Bayesian network), distinct nodes x, m, y such that pgmpy's own test accepts the mediator:
+       is_valid_frontdoor g x y [m] = true
+   (the enumerated directed paths from x to y exist and all meet m -- [dpaths] is proved sound and complete, so this
+   says: x is an ancestor of m and no directed path from x to y survives the removal of m; the empty set passes the
+   back-door test for (x, m); {x} passes it for (m, y)), and wherever the divisions are defined
+   (P(x = xv) <> 0 and P(m', x') <> 0):
+       sum_m'  P(m', xv) / P(xv)  *  sum_x'  P(y, m', x') / P(m', x') * P(x')   =   sum_rest prod_{v <> x} F_v  at x = xv
+   i.e. Pearl's front-door formula equals the truncated factorisation P(y | do(x = xv)).
+   ([marg .. S] = marginal of the product of all F over S, [trunc .. x [y]] = truncated factorisation summed over
+   everything outside {x, y}; both as functions of an assignment.)  pgmpy offers no front-door QUERY route, only
+   this test and the enumeration built on it, so there is no model function to link the formula to.
+   Proof: Base/Frontdoor.v, from three uses of the back-door theorem of Base/Backdoor.v.
+   One mediator; for mediator SETS the statement is not proved (the coded test looks at each member separately). *)
+Theorem C13_frontdoor_adjustment_formula :
+  forall (card : var -> nat) (g : digraph) (F : var -> asg -> Qc) (x m y : node) (xv : nat) (a : asg),
+  wf_graph g -> acyclic g ->
+  (forall v, In v (nodes g) -> @depends_only Qc_sum_csr (F v) (v :: parents g v)) ->
+  (forall v, In v (nodes g) -> forall b, valid card b -> @sum_over Qc_sum_csr [v] [card v] (F v) b = 1%Qc) ->
+  In x (nodes g) -> In m (nodes g) -> In y (nodes g) -> x <> m -> y <> x -> y <> m -> (xv < card x)%nat ->
+  is_valid_frontdoor g x y [m] = true ->
+  valid card a -> a x = xv ->
+  (forall b, valid card b -> b x = xv -> PV.Base.Markov.marg Qc_sum_csr card g F [x] b <> 0%Qc) ->
+  (forall b, valid card b -> PV.Base.Markov.marg Qc_sum_csr card g F [m; x] b <> 0%Qc) ->
+  @sum_over Qc_sum_csr [m] [card m]
+    (fun b => (PV.Base.Markov.marg Qc_sum_csr card g F [m; x] b / PV.Base.Markov.marg Qc_sum_csr card g F [x] b *
+              @sum_over Qc_sum_csr [x] [card x]
+                (fun c => PV.Base.Markov.marg Qc_sum_csr card g F [y; m; x] c / PV.Base.Markov.marg Qc_sum_csr card g F [m; x] c
+                          * PV.Base.Markov.marg Qc_sum_csr card g F [x] c) b)%Qc) a
+  = PV.Base.Backdoor.trunc Qc_sum_csr card g F x [y] a.
+Proof. exact frontdoor_adjustment_formula. Qed.
+Print Assumptions C13_frontdoor_adjustment_formula.
+
+(* what the path part of the test says, for every DAG: soundness and completeness of the coded enumeration *)
+Theorem C13_frontdoor_paths_meaning : forall g x y m, wf_graph g -> acyclic g -> x <> y ->
+  dpaths (length (nodes g)) g x y <> [] ->
+  existsb (fun p => negb (existsb (fun z => memn z p) [m])) (dpaths (length (nodes g)) g x y) = false ->
+  dpath g x m /\ ~ dpath (PV.C08.Model.remove_node g m) x y.
+Proof. exact frontdoor_paths. Qed.
+Print Assumptions C13_frontdoor_paths_meaning.
+
+(* non-vacuity: X -> M -> Y with a latent U -> X, U -> Y (X = 0, U = 1, M = 2, Y = 3): {M} passes the test, while
+   the empty back-door set fails *)
+Example C13_frontdoor_formula_nonvacuous :
+  let g := {| nodes := [0; 1; 2; 3]; edges := [(1, 0); (1, 3); (0, 2); (2, 3)] |}%nat in
+  wf_graph g /\ acyclic g /\ is_valid_frontdoor g 0 3 [2%nat] = true /\ is_valid_backdoor g 0 3 [] = false.
+Proof. exact frontdoor_formula_nonvacuous. Qed.
